@@ -148,6 +148,39 @@ def run(ck: Checker):
     _c04.check_wrap_arguments(ck, 'C09-10', ck.repo.func(WORKER, 'Worker._build_input_batches'))
     # ---------------------------------------------------------------- C09-3
     check_one_destination(ck, 'C09-3')
+    # ---------------------------------------------------------------- C09-12
+    ck.rule('C09-12', 'the batch size the caller configured is the batch size the worker runs with: Worker.__init__ replaces `None` (by 0, no batching) and nothing else — decided by evaluating the tests of the constructor over representative sizes (None, 0, 1, 2, 7): `batch_size=1` must stay 1, a worker configured so receives one-element lists, not bare elements (finite-domain evaluation)')
+    from mpsa.absval import walk as _walk
+
+    wi = mod.func('Worker.__init__')
+    cfg12 = build_cfg(wi, ck.repo, None)
+    ck.analysed_func(wi, cfg12)
+    ck.need('batch_size' in wi.params(), f'{wi.key}: no batch_size parameter')
+
+    def ev12(n):
+        a_ = n.ast
+        if n.kind == 'stmt' and isinstance(a_, ast.Assign) and any(is_name(t, 'batch_size') for t in a_.targets):
+            return ('set', a_.value.value) if isinstance(a_.value, ast.Constant) else ('set', norm_text(a_.value))
+        if n.kind == 'stmt' and isinstance(a_, ast.AugAssign) and is_name(a_.target, 'batch_size'):
+            return ('set', norm_text(a_))
+        return None
+
+    def stop12(n):
+        a_ = n.ast
+        return n.kind == 'stmt' and isinstance(a_, ast.Assign) and any(dotted(t) == 'self.batch_size' for t in a_.targets)
+
+    probs12 = []
+    stores12 = [n for n in cfg12.nodes if stop12(n)]
+    if not stores12 or not all(is_name(n.ast.value, 'batch_size') for n in stores12):
+        probs12.append('`self.batch_size` is not set from the `batch_size` parameter')
+    for v in (None, 0, 1, 2, 7):
+        for pth in _walk(cfg12, cfg12.entry, {'batch_size': v}, ev12, stop12):
+            sets = [e_[1] for e_ in pth if e_[0] == 'set']
+            final = sets[-1] if sets else v
+            want = 0 if v is None else v
+            if final != want:
+                probs12.append(f'batch_size={v!r} becomes {final!r}' + (' — a worker configured with batch_size=1 gets bare elements instead of one-element lists' if v == 1 else ''))
+    ck.ob('C09-12', wi, stores12[0].ast if stores12 else wi.node, not probs12, '; '.join(sorted(set(probs12))) if probs12 else 'None → 0; 0, 1, 2, 7 are stored as given')
     # ---------------------------------------------------------------- C09-11
     ck.rule('C09-11', 'a batch reaches call() as a list (the documented type: call() may pad it in place, concatenate it with a list, or dispatch on isinstance(x, list)): every definition of the value that the batch input generator yields is a list display, a list comprehension or a list(...) call (ORIGIN)')
     from mpsa.flow import reaching_defs as _rd
